@@ -12,7 +12,7 @@ use peginator::{ParseError, PegParser};
 use proc_macro2::TokenStream;
 use quote::{format_ident, quote};
 
-use super::common::{check_ident, safe_ident, CodegenGrammar, CodegenRule, CodegenSettings};
+use super::common::{check_ident, check_name, safe_ident, CodegenGrammar, CodegenRule, CodegenSettings};
 use super::include_rule::check_include_cycles;
 
 impl CodegenGrammar for Grammar {
@@ -67,7 +67,7 @@ impl CodegenGrammar for Grammar {
                     }
                 }
                 Grammar_rules::CharRule(rule) => {
-                    check_ident(&rule.name)
+                    check_name(&rule.name)
                         .with_context(|| format!("Error processing @char rule {}", rule.name))?;
                     let rule_ident = safe_ident(&rule.name);
                     all_types.extend(quote!(pub type #rule_ident = char;));
